@@ -30,7 +30,9 @@ AllTuples == UNION {Tuples(k) : k \in 1..MaxDecl}
 \* a path literal) and one label fewer with the missing label as first path segment
 HostLong  == <<"a", "com", "x">>
 HostShort == <<"a">>
-Urls == UrlsOver({HostA}, ULits, MaxUrl)
+\* ... and degenerate spellings: EMPTY path segments ("a.com//x", "a.com/x//y") - but not at the end, the tree
+\* trims trailing slashes: that is another spelling of the shorter URL
+Urls == {u \in UrlsOver({HostA}, ULits \cup {""}, MaxUrl) : Len(Path(u)) = 0 \/ Path(u)[Len(Path(u))] # ""}
         \cup UrlsOver({HostLong}, {"x"}, 1)
         \cup {Mk(HostShort, <<"com">> \o s) : s \in SeqsUpTo({"x"}, 1)}
 Reqs == {[m |-> m, u |-> u] : m \in Methods, u \in Urls}
